@@ -591,7 +591,9 @@ Section Decode.
     else
       let tr := match query_param with Some p => {| t_scope := [SKey p]; t_missing := [] |} | None => tracker0 end in
       match decR fuel t (rinit data tr) with
-      | Ok (v, s) => finish (is_record t && match query_param with None => true | Some _ => false end) (Ok (v, r_tr s))
+      (* a query parameter's reader never raises itself; QueryParamsReader.ReadRecord collects the missing fields of every
+         parameter reader and raises once at the end (query_reader.go:36-52) *)
+      | Ok (v, s) => finish (match query_param with None => is_record t | Some _ => true end) (Ok (v, r_tr s))
       | Err x => DErr x
       | Panic => DPanic
       end.
